@@ -2,8 +2,9 @@
 (***************************************************************************)
 (* C17 - trace validation of recorded PiecewiseCovEffect histories.        *)
 (* One NDJSON line per public call (construct / insert / pop / reload /    *)
-(* eval) carrying the arguments and the projected state AFTER the call     *)
-(* (.intervals, .slopes, ._intercepts as Dec values).  `st` is the state   *)
+(* eval / dim) carrying the arguments and the projected state AFTER the    *)
+(* call (.intervals, .slopes, ._intercepts as Dec values, and the three    *)
+(* names .name_i/.name_j/.name as strings, None as "<None>").  `st` is the state   *)
 (* logged by the previous line of the same trace id, so every relation of  *)
 (* CovEffect.tla is evaluated between consecutive observations of the real *)
 (* object.  Verdicts are total: failing clause names are accumulated in    *)
@@ -23,7 +24,9 @@ InsertOK(oiv, osl, niv, nsl, x, s) ==
    /\ Len(niv) = Len(oiv) + 1 /\ Len(nsl) = Len(niv)
    /\ IsAscendingD(niv)
    /\ \E p \in 0..Len(oiv) : niv = InsertAt(oiv, p, x) /\ nsl = InsertAt(osl, p, s)
-PopOK(oiv, osl, niv, nsl, i) ==
+PyIndex(i, n) == IF i < 0 THEN i + n ELSE i      \* python list index, counted from the end when negative
+PopOK(oiv, osl, niv, nsl, i0) ==
+   LET i == PyIndex(i0, Len(oiv)) IN
    /\ i >= 1 /\ i < Len(oiv)
    /\ niv = RemoveAt(oiv, i + 1) /\ nsl = RemoveAt(osl, i + 1)
 
@@ -48,6 +51,10 @@ Terms(ivs, sls, x) ==
           hi == IF k = Len(ivs) THEN x ELSE DMin(ivs[k + 1], x)
       IN IF Lt(lo, x) /\ Lt(lo, hi) THEN Mul(sls[k], Sub(hi, lo)) ELSE Zero]
 F(ivs, sls, x) == SumSeq(Terms(ivs, sls, x))
+\* the operands of the differences (hi - lo) above, times their slope: they set the scale of the rounding of the
+\* 9-digit projection of x and of the breakpoints (a coverage one ulp above a breakpoint projects ONTO it)
+TermScale(ivs, sls, x) ==
+   UNION {{Mul(sls[k], ivs[k]), Mul(sls[k], x)} : k \in {j \in 1..Len(ivs) : Le(ivs[j], x)}}
 
 StateClauses(e) ==
    (IF Len(e.iv) = Len(e.sl) THEN {} ELSE {"Paired"})
@@ -62,38 +69,68 @@ EvalClauses(e) ==
    LET terms == Terms(st.iv, st.sl, e.x)
        f == SumSeq(terms)
        urt == Mul(Mul(e.U, e.R), e.T)
-       scale == {terms[k] : k \in 1..Len(terms)} \cup {urt}
+       scale == {terms[k] : k \in 1..Len(terms)} \cup {urt} \cup TermScale(st.iv, st.sl, e.x)
    IN (IF CloseIn(urt, f, scale, 6) THEN {} ELSE {"Unique"})
       \cup (IF e.H = e.U THEN {} ELSE {"HEqualsU"})
       \cup (IF e.G = e.U /\ e.F = e.U THEN {} ELSE {"GFEqualU"})
       \cup (IF IsZero(e.S) /\ IsZero(e.Cp) /\ IsZero(e.Cv) THEN {} ELSE {"NoEntropyNoCp"})
       \cup (IF IsZero(e.x) /\ ~IsZero(e.U) THEN {"ZeroAtZero"} ELSE {})
 
+\* ---- the dimensional getters inherited from _ModelBase: get_U/get_H/get_G/get_F(units, T, x) and
+\* get_S/get_Cp/get_Cv(units + "/K").  J per (energy unit of the table of pmutt.constants.R); slopes are kcal/mol.
+\* The factors are the SI definitions (cal = 4.184 J, atm = 101325 Pa, torr = atm/760, eV and hartree times the
+\* Avogadro number), NOT values read from the library.
+UnitJ == ("J/mol" :> <<1, 0>>) @@ ("kJ/mol" :> <<1, 3>>) @@ ("L kPa/mol" :> <<1, 0>>)
+         @@ ("cm3 kPa/mol" :> <<1, -3>>) @@ ("m3 Pa/mol" :> <<1, 0>>) @@ ("cm3 MPa/mol" :> <<1, 0>>)
+         @@ ("m3 bar/mol" :> <<1, 5>>) @@ ("L bar/mol" :> <<1, 2>>) @@ ("L torr/mol" :> <<133322368, -9>>)
+         @@ ("cal/mol" :> <<4184, -3>>) @@ ("kcal/mol" :> <<4184, 0>>) @@ ("L atm/mol" :> <<101325, -3>>)
+         @@ ("cm3 atm/mol" :> <<101325, -6>>) @@ ("eV" :> <<964853321, -4>>) @@ ("Eh" :> <<262549964, -2>>)
+         @@ ("Ha" :> <<262549964, -2>>)
+KcalJ == <<4184, 0>>
+DimClauses(e) ==
+   LET terms == Terms(st.iv, st.sl, e.x)
+       want == Mul(SumSeq(terms), KcalJ)                              \* J/mol, whatever the temperature
+       scale == {Mul(t, KcalJ) : t \in {terms[k] : k \in 1..Len(terms)} \cup TermScale(st.iv, st.sl, e.x)}
+       Ok(v) == CloseIn(Mul(v, UnitJ[e.units]), want, scale, 6)
+   IN IF e.units \notin DOMAIN UnitJ THEN {"UnknownUnit"}
+      ELSE (IF Ok(e.U) THEN {} ELSE {"DimU"}) \cup (IF Ok(e.H) THEN {} ELSE {"DimH"})
+           \cup (IF Ok(e.G) THEN {} ELSE {"DimG"}) \cup (IF Ok(e.F) THEN {} ELSE {"DimF"})
+           \cup (IF IsZero(e.S) /\ IsZero(e.Cp) /\ IsZero(e.Cv) THEN {} ELSE {"NoEntropyNoCp"})
+
+Names(e) == <<e.ni, e.nj, e.nm>>
+NamesKept(e) == IF Names(e) = st.nm THEN {} ELSE {"NamesKept"}
+
 Clauses(e) ==
-   CASE e.ev = "construct" -> StateClauses(e)
-     [] e.ev = "insert" ->
+   CASE e.ev = "construct" ->
+          \* the object holds what it was given: e.aiv/e.asl/e.ani/e.anj/e.anm are the constructor's arguments
           StateClauses(e) \cup
+          (IF e.iv = e.aiv /\ e.sl = e.asl /\ Names(e) = <<e.ani, e.anj, e.anm>> THEN {} ELSE {"ConstructKeeps"})
+     [] e.ev = "insert" ->
+          StateClauses(e) \cup NamesKept(e) \cup
           (IF InsertOK(st.iv, st.sl, e.iv, e.sl, e.x, e.s) THEN {} ELSE {"InsertOK"})
      [] e.ev = "pop" ->
-          StateClauses(e) \cup
+          StateClauses(e) \cup NamesKept(e) \cup
           (IF e.i = 0
            THEN (IF e.raised /\ e.iv = st.iv /\ e.sl = st.sl THEN {} ELSE {"PopZeroRefused"})
            ELSE (IF ~e.raised /\ PopOK(st.iv, st.sl, e.iv, e.sl, e.i) THEN {} ELSE {"PopOK"}))
      [] e.ev = "reload" ->
           StateClauses(e) \cup
-          (IF e.iv = st.iv /\ e.sl = st.sl THEN {} ELSE {"ReloadSame"})
+          (IF e.iv = st.iv /\ e.sl = st.sl /\ Names(e) = st.nm THEN {} ELSE {"ReloadSame"})
      [] e.ev = "eval" -> EvalClauses(e)
-     \* an object left behind by an earlier reload, observed again after a later call on the reloaded copy:
-     \* e.iv/sl/ic now, e.siv/ssl/sic when it was left behind, e.U / e.sU its value at one coverage
+     [] e.ev = "dim" -> DimClauses(e)
+     \* something left behind (e.who: "orig" the object a reload was made from, "dict" the serialised record -
+     \* evaluated through a fresh load of a deep copy -, "twin" a second object loaded from the same record,
+     \* "sibling" a second object constructed from the same argument lists), observed again after a later call on
+     \* the live object: e.iv/sl/ic now, e.siv/ssl/sic when it was left behind, e.U / e.sU its value at one coverage
      [] e.ev = "frozen" ->
           (IF e.iv = e.siv /\ e.sl = e.ssl /\ e.ic = e.sic /\ e.U = e.sU THEN {} ELSE {"ReloadDetached"})
           \cup (IF Len(e.iv) = Len(e.sl) /\ Len(e.ic) = Len(e.iv) /\ Fresh(e.iv, e.sl, e.ic) THEN {}
                 ELSE {"ReloadDetachedFresh"})
      [] OTHER -> {"UnknownEvent"}
 
-Step(e) == IF e.ev \in {"eval", "frozen"} THEN st ELSE [iv |-> e.iv, sl |-> e.sl]
+Step(e) == IF e.ev \in {"eval", "dim", "frozen"} THEN st ELSE [iv |-> e.iv, sl |-> e.sl, nm |-> Names(e)]
 
-Init == l = 1 /\ st = [iv |-> <<>>, sl |-> <<>>] /\ TLCSet(1, {})
+Init == l = 1 /\ st = [iv |-> <<>>, sl |-> <<>>, nm |-> <<>>] /\ TLCSet(1, {})
 Next == /\ l <= Len(TraceLog)
         /\ LET e == TraceLog[l]  bad == Clauses(e) IN
              /\ IF bad # {} THEN TLCSet(1, TLCGet(1) \cup {<<e.tid, l, c>> : c \in bad}) ELSE TRUE
